@@ -86,7 +86,7 @@ func numGenerated(env *runner.Env) int {
 func init() {
 	runner.Register(&runner.Prop{
 		ID: "C08",
-		Rule: "quick: all repo test files + 2 000 generated files, thorough: + 100 000 generated files. One case = one file decoded twice (mp4.DecodeFile from a bytes.Reader: normal mode and WithDecodeMode(DecModeLazyMdat)). Files: every file of at most 512 KiB under the repo's testdata directories (progressive, fragmented, encrypted, init-only; files both modes reject are counted, not compared) " +
+		Rule: "quick: all repo test files + 2 000 generated files, thorough: + 100 000 generated files; plus 7 giant files (ftyp, an mdat whose box size is 2^32-1, 2^32-2, 2^32-9 with a compact header or 2^32-1, 2^32, 2^32+16, 2^33+5 with a 64-bit header, then a uuid box) served by a virtual ReadSeeker (real bytes at both ends of the payload, zeros between) and judged, in lazy mode only, against the layout they were built with: box list, mdat Size/HeaderSize/PayloadAbsoluteOffset/StartPos, position of the box behind the mdat, File.Size, Encode = the header, ReadData/CopyData at both payload ends, fewer than 1 MiB read. One case = one file decoded twice (mp4.DecodeFile from a bytes.Reader: normal mode and WithDecodeMode(DecModeLazyMdat)). Files: every file of at most 512 KiB under the repo's testdata directories (progressive, fragmented, encrypted, init-only; files both modes reject are counted, not compared) " +
 			"followed by generated progressive files (gen/prog.RandomTables, own serializer): 1..2 tracks, 1..48 samples, mdat payload about 0..4 KiB (budgets 8, 32, 96, 512, 4096 bytes), compact and forced 64-bit mdat headers, mdat before and after moov, free box, junk gaps, stco/co64, arbitrary chunk interleaving. " +
 			"Compared: acceptance, top-level box list, Size() of every box and of the file, reflect.DeepEqual of every non-mdat box, per-fragment moof equality for fragmented files, StartPos/LargeSize/HeaderSize/PayloadAbsoluteOffset of every mdat in both modes and against the reference walker, File.Info dumps at all:1; " +
 			"for every mdat: lazy Encode and EncodeSW = the original header bytes, header + CopyData(whole payload) = the original box; ReadData and CopyData in both modes for ALL (start,size>=1) ranges inside the payload when it has at most 96 bytes, otherwise all ranges that start in the first 3 or end in the last 3 payload bytes combined with boundary sizes plus 200 random ranges, expected = file[start:start+size], and the four most recent lazy ReadData results are held and must still equal the file after every later lazy call on the same box; " +
@@ -101,7 +101,7 @@ func init() {
 		Setup: setup,
 		// a case normally takes milliseconds; a data call that never returns in one mode is a difference between the modes
 		CaseCPUSec: 30, HangIsViolation: true,
-		NumCases: func(env *runner.Env) int { return len(corpus) + numGenerated(env) },
+		NumCases: func(env *runner.Env) int { return len(corpus) + numGenerated(env) + len(giants) },
 		Run:      run,
 		Finalize: func(a *runner.Agg) {
 			if a.Counters["files_corpus_compared"] == 0 {
@@ -158,6 +158,10 @@ func (s *state) detail(extra map[string]interface{}) map[string]interface{} {
 }
 
 func run(c *runner.Ctx, idx int) {
+	if k := idx - len(corpus) - numGenerated(c.Env); k >= 0 {
+		runGiant(c, giants[k])
+		return
+	}
 	s := &state{c: c}
 	if idx < len(corpus) {
 		s.b, s.name, s.kind = corpus[idx].data, corpus[idx].name, "corpus"
@@ -178,6 +182,19 @@ func run(c *runner.Ctx, idx int) {
 			extra = "trailing-empty-mdat"
 		}
 		c.Seen("extra_mdat", extra)
+		if c.Rand.Chance(1, 4) {
+			// a large top-level free/skip box with non-zero content behind everything else (offsets unaffected)
+			n := c.Rand.PickInt(4088, 4095, 4096, 4097, 5000, 8192, 70000)
+			box := make([]byte, 8+n)
+			box[0], box[1], box[2], box[3] = byte((8+n)>>24), byte((8+n)>>16), byte((8+n)>>8), byte(8+n)
+			copy(box[4:], c.Rand.PickStr("free", "skip"))
+			for i := 8; i < len(box); i++ {
+				box[i] = byte(1 + (i*7+n)%255)
+			}
+			s.b = append(append([]byte(nil), s.b...), box...)
+			s.name += fmt.Sprintf(" +trailing-%s(%d)", box[4:8], n)
+			c.Count("generated_with_large_trailing_free_or_skip", 1)
+		}
 		c.Seen("generated_layout", fmt.Sprintf("mdatFirst=%v large=%v", f.MdatFirst, f.LargeMdat))
 	}
 	if c.Rand.Chance(1, 3) {
